@@ -11,6 +11,34 @@ import (
 // the generator; the oracle's class comes from Evaluate). present=false means
 // "send no Range header". allowHuge=false keeps every number below 2^26.
 func Gen(rng *rand.Rand, size int64, allowHuge bool) (h string, present bool, kind string) {
+	h, present, kind = gen(rng, size, allowHuge)
+	// positions are 1*DIGIT: leading zeros are legitimate and do not change the
+	// value, however long the digit string becomes (1 header in 10)
+	if present && rng.Intn(10) == 0 && strings.HasPrefix(h, "bytes=") {
+		var sb strings.Builder
+		i := 0
+		for i < len(h) {
+			if h[i] < '0' || h[i] > '9' {
+				sb.WriteByte(h[i])
+				i++
+				continue
+			}
+			j := i
+			for j < len(h) && h[j] >= '0' && h[j] <= '9' {
+				j++
+			}
+			if rng.Intn(3) != 0 {
+				sb.WriteString(strings.Repeat("0", []int{1, 2, 5, 18, 19, 20, 21, 30, 64}[rng.Intn(9)]))
+			}
+			sb.WriteString(h[i:j])
+			i = j
+		}
+		return sb.String(), present, kind + "+leading-zeros"
+	}
+	return h, present, kind
+}
+
+func gen(rng *rand.Rand, size int64, allowHuge bool) (h string, present bool, kind string) {
 	n := size
 	in := func() int64 { // a position inside the content (0 if empty)
 		if n <= 0 {
